@@ -1,24 +1,7 @@
 #pragma once
 // rr_cache: vector<element> + vector<size_t> open list (first m_open_list_end entries in use) + unordered_map<key,size_t>
-#include <optional>
-#include <cappuccino/allow.hpp>
-#include <cappuccino/lock.hpp>
-#include <cappuccino/peek.hpp>
-#include <cappuccino/rr_cache.hpp>
+#include "api_rr.hpp"
 #include "vf_inv.hpp"
-#include "abs.hpp"
-#define T_NAME "rr"
-#define T_POLICY P_RR
-#define T_TTL 0
-#define T_PEEK 0
-#define T_CAPPED 1
-#define T_PURGE 0
-#define T_HAS_CLEAN 0
-#define T_HAS_CLEAR 0
-#define T_HAS_AGE 0
-#define T_HAS_UPDTTL 0
-using C = cappuccino::rr_cache<uint64_t, uint64_t, cappuccino::thread_safe::TS>;
-#define DECL_C(c) C c(HCAP)
 
 template<class S>
 static void install(C& c, S& s)
@@ -80,13 +63,4 @@ static void alpha(C& c, Abs& a)
             a.k[p]  = c.m_keyed_elements.m_pool[e.m_keyed_position.i].kv.first;
             a.v[p]  = e.m_value;
         }
-}
-static bool x_insert(C& c, uint64_t k, uint64_t v, uint8_t a, int64_t) { return c.insert(k, v, (cappuccino::allow)a); }
-static bool x_erase(C& c, uint64_t k) { return c.erase(k); }
-static void x_find(C& c, uint64_t k, bool, Res& r)
-{
-    auto o = c.find(k);
-    r.ok   = o.has_value();
-    r.val  = r.ok ? *o : 0;
-    r.cnt  = 0;
 }
